@@ -563,3 +563,43 @@ def r10_8(ctx, rr):
                 rr.violate(key, "copy: the loop storing `%s` does not range over 1 .. (last destination word - first destination word): %s; a destination word between the first and the last is never written when the destination range touches one more word than the source range" % (show(F, n)[:80], why), F.loc(n))
     if n_loops < 2:
         raise AnchorMissing("copy: expected the two middle-word loops of the misaligned multi-word branches, found %d" % n_loops)
+
+
+@rule("R10.9", props=["C10", "C05"], floor=1, title="apply_in_place_unchecked applies the function once per element also when there is nothing to store (bit width 0)")
+def r10_9(ctx, rr):
+    """apply_in_place is documented as `for i in 0..len { set(i, f(get(i))) }`. An early `return` for bit width 0
+    skips the calls (and the validation of their results)."""
+    F = ctx.F()
+    b = F.one(r"^<bits::bit_field_vec::BitFieldVec<W, B> as traits::bit_field_slice::BitFieldSliceMut<W>>::apply_in_place_unchecked$")
+    fpar = b.params[1]["id"]
+    T = Termizer(F, b)
+    zero_ifs = []
+    for n in walk(b.body):
+        if n.get("k") == "If" and n["c"].get("k") == "Binary" and n["c"]["op"] == "==" and n["c"]["r"].get("k") == "Lit" and n["c"]["r"].get("v") == "0":
+            t = Walker(F, b).T.term(n["c"]["l"]) if False else None
+            # the left side is the bit width (a local bound to self.bit_width() / self.bit_width)
+            l = n["c"]["l"]
+            is_bw = False
+            if l.get("k") == "Path" and l.get("res") == "local":
+                ls = [x for x in walk(b.body) if x.get("k") == "LetStmt" and x["pat"].get("k") == "PBind" and x["pat"]["id"] == l["id"] and "init" in x]
+                is_bw = bool(ls) and "bit_width" in show(F, ls[0]["init"])
+            elif "bit_width" in show(F, l):
+                is_bw = True
+            if is_bw and any(x.get("k") == "Ret" for x in walk(n["th"])):
+                zero_ifs.append(n)
+    if not zero_ifs:
+        # no special case at all is fine too (the general path then has to cope with width 0): nothing to check
+        rr.instances += 1
+        rr.ob(True, key="apply_in_place_unchecked:zero-width", nontrivial=False)
+        return
+    for n in zero_ifs:
+        rr.instances += 1
+        calls_f = [x for x in walk(n["th"]) if x.get("k") == "Call" and x["f"].get("k") == "Path" and x["f"].get("id") == fpar]
+        in_loop = False
+        pm = {id(x): ps for x, ps in walk_with_parents(n["th"])}
+        for c in calls_f:
+            if any(p.get("k") == "Loop" for p in pm.get(id(c), ())):
+                in_loop = True
+        rr.ob(in_loop, key="apply_in_place_unchecked:zero-width-still-applies-f")
+        if not in_loop:
+            rr.violate("apply_in_place_unchecked:zero-width-still-applies-f", "apply_in_place_unchecked returns at once when the bit width is 0, without applying the function to the len elements (all 0): the documented element-by-element definition calls it len times and validates each result", F.loc(n))
